@@ -71,7 +71,7 @@ def frame(*changed, obj="self"):
     """every field of every *other* Event object, and the unlisted fields of `obj`, keep their values"""
     others = " and ".join(f"e.{f} == old(e.{f})" for f in _EVENT_FIELDS)
     same = " and ".join(f"{obj}.{f} == old({obj}.{f})" for f in _EVENT_FIELDS if f not in changed) or "True"
-    return f"forall(lambda e: e is {obj} or ({others}), 'Event', triggers=[e.event_sets, e._logic_gate_tree, e._update_since_logic_gate_tree, e.in_event_sets]) and {same}"
+    return f"forall(lambda e: e is {obj} or ({others}), 'Event', triggers=[e.event_sets, e._logic_gate_tree, e._update_since_logic_gate_tree, e.in_event_sets, e.event_type]) and {same}"
 
 
 CONTRACTS = {
